@@ -501,11 +501,104 @@ fn stress_part() -> CustomPart {
     }
 }
 
+/// Real threads writing MANY DISTINCT keys of one class at once (first-time puts, overwrites, a
+/// few deletes), then a sequential read-back: what a key holds must be the last value its only
+/// writer gave it. Writes to different keys share allocators (embedding slots, cache slots, shard
+/// maps); a slot handed out twice shows up as one key reading another key's value.
+fn stress_many_part() -> CustomPart {
+    CustomPart {
+        name: "stress_many",
+        run: Box::new(|cfg, findings, stats| {
+            let rounds = cfg.cases(10, 200);
+            let per = 1200usize;
+            for r in 0..rounds {
+                // embedding keys in 3 rounds out of 5 (the class with its own slot allocator)
+                let class: u8 = [1, 1, 0, 1, 3][r as usize % 5];
+                let threads = 4 + (r as usize % 5);
+                let store = TensorStore::new();
+                let barrier = Arc::new(std::sync::Barrier::new(threads));
+                let hs: Vec<_> = (0..threads)
+                    .map(|t| {
+                        let (store, barrier) = (store.clone(), barrier.clone());
+                        std::thread::spawn(move || {
+                            barrier.wait();
+                            // (key, tag of the last put or None after a delete)
+                            let mut last: Vec<(String, Option<u32>)> = Vec::with_capacity(per);
+                            for k in 0..per {
+                                let key = format!("{}t{t}:{k}", if CLASSES[class as usize] == "plain" { "k" } else { CLASSES[class as usize] });
+                                // tags are unique per (thread, key, version); every fifth has no / an off-size vector
+                                let tag = ((t * per + k) * 4) as u32;
+                                let _ = store.put(&key, value(&key, tag));
+                                let mut fin = Some(tag);
+                                if k % 7 == 3 {
+                                    let _ = store.put(&key, value(&key, tag + 1));
+                                    fin = Some(tag + 1);
+                                }
+                                if k % 11 == 5 {
+                                    let _ = store.delete(&key);
+                                    fin = None;
+                                }
+                                last.push((key, fin));
+                            }
+                            last
+                        })
+                    })
+                    .collect();
+                let mut all: Vec<(String, Option<u32>)> = Vec::new();
+                for h in hs {
+                    all.extend(h.join().unwrap_or_default());
+                }
+                stats.evaluations += 1;
+                stats.nontrivial.insert(nv_engine::fnv64(format!("many{r}").as_bytes()));
+                let mut wrong: Vec<String> = Vec::new();
+                for (key, want) in &all {
+                    let got = store.get(key).ok();
+                    let verdict = match (want, got) {
+                        (None, None) => None,
+                        (None, Some(_)) => Some("deleted by its only writer but present".to_string()),
+                        (Some(t), None) => Some(format!("written (tag {t}) by its only writer but absent")),
+                        (Some(t), Some(d)) => match read_tag(key, &d) {
+                            Ok(g) if g == *t => None,
+                            Ok(g) => Some(format!("last written with tag {t} but holds tag {g}")),
+                            Err(e) => Some(format!("last written with tag {t} but holds a value nobody wrote to it: {e}")),
+                        },
+                    };
+                    if let Some(v) = verdict {
+                        if wrong.len() < 4 {
+                            wrong.push(format!("{key}: {v}"));
+                        } else {
+                            wrong.push(String::new());
+                        }
+                    }
+                }
+                if stats.samples.len() < 2 {
+                    stats.sample(serde_json::json!({"part": "stress_many", "threads": threads, "class": CLASSES[class as usize], "keys": all.len()}));
+                }
+                if !wrong.is_empty() {
+                    let mut ctx = CaseCtx::new(findings, false);
+                    let shown: Vec<&String> = wrong.iter().filter(|w| !w.is_empty()).collect();
+                    let res = ctx.fail(
+                        format!("many-keys:wrong-value:{}", CLASSES[class as usize]),
+                        format!("{threads} threads wrote {} distinct {} keys concurrently; after they finished {} key(s) do not hold what their only writer left: {shown:?}", all.len(), CLASSES[class as usize], wrong.len()),
+                    );
+                    if let Err(f) = res {
+                        let case = serde_json::json!({"threads": threads, "class": CLASSES[class as usize], "wrong": wrong.len(), "examples": shown});
+                        let path = nv_engine::runner::write_replay(cfg, "stress_many", &f, &case);
+                        return Some(Violation { part: "stress_many".into(), sig: f.sig, msg: f.msg, replay: path });
+                    }
+                }
+            }
+            None
+        }),
+        replay: Box::new(|_case, _f, _s| Err(Fail::new("stress-history", "recorded real-thread outcome (see msg in the replay file); not re-executable"))),
+    }
+}
+
 fn main() {
     main_for(PropDef {
         id: "C11",
         level: "exploration",
-        rule: "lin: 2..5 (8) scripted threads of 1..5 put/get/delete/exists/scan ops on 1..3 contended keys of one key class (plain, emb: with a 384-dim vector whose every component and a sibling scalar carry the writer's tag, node:, table:, _cache:), every written value unique, plus a generated schedule; non-trivial = two operations on one key overlap in time and one is a write. durable: the same with put_durable/delete_durable and the store.durable.logged yield point; non-trivial = two overlapping durable writes to one key. stress: real threads. distinct = distinct generated case",
+        rule: "lin: 2..5 (8) scripted threads of 1..5 put/get/delete/exists/scan ops on 1..3 contended keys of one key class (plain, emb: with a 384-dim vector whose every component and a sibling scalar carry the writer's tag, node:, table:, _cache:), every written value unique, plus a generated schedule; non-trivial = two operations on one key overlap in time and one is a write. durable: the same with put_durable/delete_durable and the store.durable.logged yield point; non-trivial = two overlapping durable writes to one key. stress: real threads on one key. stress_many: 4-8 real threads each writing 1200 distinct keys of one class (first puts, overwrites, deletes), sequential read-back afterwards. distinct = distinct generated case",
         assumptions: vec![
             "the scheduler owns the interleaving at the store.emb.* / store.durable.logged hooks and at operation boundaries only; other windows are reached only by the probabilistic stress part",
             "embedding-class values carry a slab-dimension vector, a vector of another dimension (kept in metadata only) or none, as a function of the write's tag; what is read back must be exactly one write's value",
@@ -516,6 +609,7 @@ fn main() {
             PropPart::new("lin", 6000, 100_000, |t| case_strategy(t, true), lin_check).shrink_iters(600).boxed(),
             PropPart::new("durable", 1500, 30_000, |t| case_strategy(t, false), durable_check).shrink_iters(300).boxed(),
             Box::new(stress_part()),
+            Box::new(stress_many_part()),
         ],
         children: vec![],
     });
